@@ -28,9 +28,9 @@ def c11Sources : List (String × String) := [
 
 /-- AST hash (docstring removed) of the functions the C10 models transcribe, in the working tree -/
 def c10Sources : List (String × String) := [
-  ("tensordict/_td.py:TensorDict._memmap_", "9bd88537471408d0"),
+  ("tensordict/_td.py:TensorDict._memmap_", "f9faead563a27dca"),
   ("tensordict/_td.py:TensorDict._load_memmap", "02c33ca93950141a"),
-  ("tensordict/_td.py:_populate_memmap", "50f37a978abdb1c4"),
+  ("tensordict/_td.py:_populate_memmap", "8cf811881ea78212"),
   ("tensordict/_td.py:_save_metadata", "011a7f55d21a8d8f"),
   ("tensordict/_td.py:_update_metadata", "fda5fe30e5bc367a"),
   ("tensordict/_lazy.py:LazyStackedTensorDict._load_memmap", "b077bd81181c4ba1"),
